@@ -64,6 +64,15 @@ package database
 //@   modifies *primaryKeys, elems(*primaryKeys), *foreignKeyConstraints, elems(*foreignKeyConstraints), mapof(visitedAttributes)
 //@   perwrite
 //@   ensures [lists-stay-in-own-arrays] (base(*primaryKeys) == old(base(*primaryKeys)) || fresh(*primaryKeys)) && (base(*foreignKeyConstraints) == old(base(*foreignKeyConstraints)) || fresh(*foreignKeyConstraints))
+//@   ensures [column-type-recorded] in(tableName + "." + attrName, visitedAttributes)
+
+// Comparing a retained column with its old definition records the column's SQL type in the memo on every path:
+// foreign keys declared later (in this delta or by an added table) resolve their type from that entry.
+//@ func (*ScriptView).writeModifySQLForAColumn
+//@   requires v != nil && v.stringBuilder != nil && visitedAttributes != nil && primaryKeys != nil
+//@   modifies *primaryKeys, elems(*primaryKeys), reach(v.stringBuilder), mapof(visitedAttributes)
+//@   perwrite
+//@   ensures [column-type-recorded] in(tableName + "." + attrName, visitedAttributes)
 //@ func (*ScriptView).addConstraints
 //@   pure
 //@ func (*ScriptView).getPrimaryKeyString
